@@ -114,7 +114,7 @@ def rand_feature_ft(rng, minbits=8, default_p=0.5):
     return ('int', False, size, al)
 
 
-def rand_cfg(rng, clock_p=0.5, nstreams=None, max_erts=3, unknown_native_p=0.3, rich=True):
+def rand_cfg(rng, clock_p=0.5, nstreams=None, max_erts=3, unknown_native_p=0.3, rich=True, small_sizes_p=0.0):
     bo = 'be' if rng.random() < 0.35 else 'le'
     # a big-endian TraceType (known native order) cannot run on this little-endian host
     native_known = False if bo == 'be' else rng.random() > unknown_native_p
@@ -143,7 +143,14 @@ def rand_cfg(rng, clock_p=0.5, nstreams=None, max_erts=3, unknown_native_p=0.3, 
             'ts': rand_feature_ft(rng, 16) if clock and rng.random() < 0.75 else None,
         }
         pc_extra = []
-        if rich and rng.random() < 0.4:
+        small_sizes = rng.random() < small_sizes_p
+        if small_sizes:
+            # total / content size field types of 13 ... 20 bits, bit-packed: the stated sizes then have set bits in
+            # the partial last byte of the field, next to the following (late-written) member.  Buffers of such a
+            # stream are capped by rand_history (cfg['small_sizes']) so that every size still fits its field
+            pf['total'] = ('int', False, rng.choice([13, 14, 15, 17, 20]), rng.choice([1, 1, 2, 4, 8]))
+            pf['content'] = ('int', False, rng.choice([13, 14, 15, 17, 20]), rng.choice([1, 1, 1, 2, 4]))
+        if rich and rng.random() < 0.4 and not small_sizes:
             st = rand_struct(rng, 2)
             pc_extra = [(('u_' + n) if not n.startswith('__') else ('__u_' + n[2:]), f) for n, f in st['members']]
         erts = []
@@ -159,7 +166,7 @@ def rand_cfg(rng, clock_p=0.5, nstreams=None, max_erts=3, unknown_native_p=0.3, 
                 if e['p'] is None:
                     e['p'] = {'minal': 1, 'members': []}
                 e['p']['members'].insert(0, ('k0', rand_int_ft(rng)))
-        streams.append({'name': 'st%d' % si, 'clock': clock, 'pf': pf, 'ef': ef, 'pc_extra': pc_extra,
+        streams.append({'name': 'st%d' % si, 'clock': clock, 'pf': pf, 'ef': ef, 'pc_extra': pc_extra, 'small_sizes': small_sizes,
                         'cc': rand_struct(rng, 3) if rich and rng.random() < 0.35 else None, 'erts': erts})
     return {'bo': bo, 'native_known': native_known,
             'uuid': bytes(rng.randrange(256) for _ in range(16)) if has_uuid else None,
